@@ -411,6 +411,12 @@ def reverse_site(c, m, node, scope, prefix_name, row_expr_txt, construct, rid="C
     negated = any(isinstance(x, ast.UnaryOp) and isinstance(x.op, ast.Not) and any(y is cl for y in ast.walk(x)) for x in ast.walk(node.test))
     if isinstance(node, ast.If):
         a_true, a_false = node.body, node.orelse
+        if not a_false:
+            # `if c: return X` followed by the other arm: the rest of the enclosing block is the else arm
+            par = getattr(node, "_parent", None)
+            for lst in (getattr(par, "body", None), getattr(par, "orelse", None)):
+                if isinstance(lst, list) and node in lst:
+                    a_false = lst[lst.index(node) + 1:]
     else:
         a_true, a_false = [node.body], [node.orelse]
     strip_arm, prep_arm = (a_false, a_true) if negated else (a_true, a_false)
